@@ -74,6 +74,10 @@ def ensure_facts(cfg="Q", repo=REPO, quiet=False):
     th, nfiles = tree_hash(repo)
     out = os.path.join(CACHE, "facts", f"{th}-{cfg}.jsonl")
     if os.path.exists(out):
+        try:
+            os.utime(out, None)           # in use: keep it among the most recent ones for the pruning
+        except OSError:
+            pass
         return out, th, 0.0
     # a configuration has up to SLOTS build directories, so that several processes (the parallel self-test) can extract
     # at the same time; slot k > 0 starts as a copy of slot 0's dependency build instead of compiling it again
@@ -93,6 +97,10 @@ def ensure_facts(cfg="Q", repo=REPO, quiet=False):
         slot = 0
     try:
         if os.path.exists(out):
+            try:
+                os.utime(out, None)       # in use: keep it among the most recent ones for the pruning below
+            except OSError:
+                pass
             return out, th, 0.0
         t0 = time.time()
         args, min_bodies = CONFIGS[cfg][:2]
@@ -137,9 +145,20 @@ def ensure_facts(cfg="Q", repo=REPO, quiet=False):
         os.replace(got[0], out)
         shutil.rmtree(tmp_out, ignore_errors=True)
         # bound the cache: keep the 6 most recent fact files
-        olds = sorted(glob.glob(os.path.join(CACHE, "facts", "*.jsonl")), key=os.path.getmtime)
+        # (several processes prune concurrently - self-test workers, checks run side by side: a file may vanish between
+        # the listing and the stat / unlink)
+        def _mtime(f):
+            try:
+                return os.path.getmtime(f)
+            except OSError:
+                return 0.0
+        olds = sorted(glob.glob(os.path.join(CACHE, "facts", "*.jsonl")), key=_mtime)
         for o in olds[:-24]:
-            os.unlink(o)
+            if o != out:
+                try:
+                    os.unlink(o)
+                except OSError:
+                    pass
         if not quiet:
             print(f"[extract] config {cfg}: {meta['b']['bodies']} bodies from {nfiles} source files in {time.time()-t0:.1f}s", file=sys.stderr)
         return out, th, time.time() - t0
